@@ -215,6 +215,7 @@ StringDictionaryHASHUFFDAC::StringDictionaryHASHUFFDAC(IteratorDictString *it,
 
   table = builder->getTable();
   hash->finish(bytesStrings);
+  hash->setData(dac);
 
   delete builder;
 }
